@@ -416,6 +416,8 @@ Qed.
 (* ================================================================================================ *)
 (* non-vacuity; the hypotheses are needed                                                            *)
 
+Ltac conj_vm := repeat match goal with |- _ /\ _ => split end; try (vm_compute; reflexivity).
+
 Lemma ex_name_wf : wf_name ex_name.                        (* "a._x._tcp.local." *)
 Proof.
   exists [[97]; [95;120]; [95;116;99;112]; [108;111;99;97;108]]. split; [reflexivity|].
@@ -437,9 +439,9 @@ Example still_answered_example :
   ex_q = [0;0;0;0;0;1;0;0;0;0;0;0; 1;97; 2;95;120; 4;95;116;99;112; 5;108;111;99;97;108; 0; 0;33; 0;1] /\
   snd (fstep ex_f (FDatagram ex_q [49] 5353 1000 450 20 20)) = [OSend 1000 None (srv_multicast (ex_svc ex_host))].
 Proof.
-  split; [split; [exact (proj1 (proj1 ex_run))|exact I]|]. split; [cbn; repeat split; discriminate|].
-  split; [vm_compute; left; reflexivity|]. split; [reflexivity|]. split; [exact ex_name_wf|].
-  repeat split; vm_compute; reflexivity.
+  split; [split; [exact (proj1 (proj1 ex_run))|exact I]|]. split; [vm_compute; repeat split; discriminate|].
+  split; [vm_compute; left; reflexivity|]. split; [vm_compute; reflexivity|]. split; [exact ex_name_wf|].
+  conj_vm.
 Qed.
 
 (* the scheduled branch: the SRV record was seen on the wire 100 ms before the query; nothing is sent at once, the record
@@ -454,7 +456,7 @@ Example still_answered_example_delayed :
   q_groups (n_qd (f_node f3)) = [{| g_after := 2020; g_before := 2200; g_answers := [(0, [1; 2])] |}] /\
   nth_error (n_tbl (f_node f3)) 0 = Some (dns_service (ex_svc ex_host)) /\
   exists m, snd (fstep f3 (FNode (LReady true 2200))) = [OSend 2200 None m] /\ o_answers m = [(dns_service (ex_svc ex_host), 0)].
-Proof. cbv zeta. repeat split; try (vm_compute; reflexivity). eexists. split; vm_compute; reflexivity. Qed.
+Proof. cbv zeta. conj_vm. eexists. split; vm_compute; reflexivity. Qed.
 
 (* "no truncated query of that address pending" cannot simply be dropped: a truncated query from the same address that lists the
    SRV record as a known answer is answered together with ours - and suppresses the answer (nothing sent, nothing queued).
@@ -472,7 +474,7 @@ Example pending_known_answer_suppresses :
   snd (fstep ex_f4 l) = [] /\ q_groups (n_q (f_node (fst (fstep ex_f4 l)))) = [] /\ q_groups (n_qd (f_node (fst (fstep ex_f4 l)))) = [] /\
   suppresses (known_answers (answered_with ex_f4 [49] ex_q 1000)) (dns_service (ex_svc ex_host)) = true /\
   snd (fstep ex_f4 (FDatagram ex_q [50] 5353 1000 450 20 20)) = [OSend 1000 None (srv_multicast (ex_svc ex_host))].
-Proof. cbv zeta. repeat split; try (vm_compute; reflexivity); try (vm_compute; left; reflexivity). vm_compute. discriminate. Qed.
+Proof. cbv zeta. conj_vm; [vm_compute; left; reflexivity|vm_compute; discriminate]. Qed.
 
 (* "not done" is needed: after _close() nothing is sent *)
 Example closed_instance_is_silent :
